@@ -207,7 +207,7 @@ def gen_case(rng, big=False):
 
 def generate(run, tier):
     rng = run.rng("gen")
-    n = 200 if tier == "quick" else 1200
+    n = 120 if tier == "quick" else 1000
     return [gen_case(rng, big=(tier != "quick")) for _ in range(n)]
 
 
